@@ -356,6 +356,18 @@ func c10shapes(r *vres.R) {
 			"kubernetesCustomResourceConversion": []any{map[string]any{"name": "c", "crdName": "x.example.com", "includeSnapshotsFrom": []string{"k2"}, "conversions": []any{map[string]any{"fromVersion": "v1", "toVersion": "v2"}}}},
 			"settings":                           map[string]any{"executionMinInterval": "3s", "executionBurst": 2}},
 			"startup=-|k:k1/main//[] k:k2/main//[k1 k2]|s:s/main/false//[k2 k1]|m:m.example.com//[k1]|c:c//[k2]|settings=3s/2"},
+		// bindings of one group keep the queue each of them declares
+		{"group-with-different-queues", map[string]any{"configVersion": "v1",
+			"kubernetes": []any{func() map[string]any { m := k("k1", "g"); m["queue"] = "q1"; return m }(), k("k2", "g")},
+			"schedule": []any{map[string]any{"name": "s1", "crontab": "* * * * *", "group": "g", "queue": "q2"}, map[string]any{"name": "s2", "crontab": "* * * * *", "group": "g"}}},
+			"startup=-|k:k1/q1/g/[k1 k2] k:k2/main/g/[k1 k2]|s:s1/q2/false/g/[k1 k2] s:s2/main/false/g/[k1 k2]"},
+		// onStartup: 0 is a declared binding with order 0, not an absent one
+		{"onstartup-zero", map[string]any{"configVersion": "v1", "onStartup": 0, "schedule": []any{map[string]any{"name": "s", "crontab": "* * * * *"}}},
+			"startup=0||s:s/main/false//[]"},
+		// configVersion v0 (no configVersion key): default names of unnamed bindings, onStartup 0
+		{"v0-defaults", map[string]any{"onStartup": 0, "schedule": []any{map[string]any{"crontab": "* * * * *"}, map[string]any{"name": "s2", "crontab": "*/5 * * * *", "allowFailure": true}},
+			"onKubernetesEvent": []any{map[string]any{"kind": "ConfigMap"}, map[string]any{"name": "named", "kind": "Pod", "event": []string{"add"}}}},
+			"startup=0|k:onKubernetesEvent/main//[] k:named/main//[]|s:schedule/main/false//[] s:s2/main/true//[]"},
 	}
 	render := func(c *HookConfig) string {
 		var parts []string
